@@ -260,14 +260,13 @@ impl World {
         }
         let call = self.read_calls;
         self.read_calls += 1;
-        if let Some(k) = self.pending_read_err {
-            if k.is_interrupted() {
-                // the library retried EINTR itself instead of reporting it
-                self.pending_read_err = None;
-                self.retried_interrupted += 1;
-            } else {
-                self.seam_call_while_pending = true;
-            }
+        if self.pending_read_err.is_some() {
+            // The library called read again before reporting the injected error.
+            // This holds for ErrorKind::Interrupted too: the property says the
+            // reader's error is reported to the caller, and that is what the
+            // library does today (an earlier version of this check tolerated a
+            // library-side EINTR retry; see DESIGN 10.2).
+            self.seam_call_while_pending = true;
         }
         let offered = buf.len();
         // injected faults first: a faulted call consumes neither data nor step
